@@ -149,8 +149,19 @@ def run_cases(res, cases, owns, what, theorem=None, nontrivial=None, kernel_samp
         res.disagree('in-kernel replay differs from extracted model', None, None, out[-800:], sig={'category': 'kernel-replay'})
 
 
+_shrunk = [0]
+
+
 def shrink(case, owns):
+    if _shrunk[0] >= 2:
+        return case
+    _shrunk[0] += 1
+    budget = [120]
+
     def failing(c):
+        budget[0] -= 1
+        if budget[0] < 0:
+            return False
         m = common.model_eval('session', [[sessioncheck.mcfg(c['config']), model_events(c['events'])]], shards=1)[0]
         r = compare_case(c, m)
         return r != 'oom' and any(owns(cat) or cat in ('model', 'impl.exception') for cat, _ in r)
